@@ -589,9 +589,10 @@ class LinearFactor(ConjugateFactor):
         computed.
              :return: Returns the resulting dictionary to create GaussianMeasure.
         """
-        Lambda_new = measure.Lambda
         nu_new = measure.nu + self.nu
         ln_beta_new = measure.ln_beta + self.ln_beta
+        # A single-component measure is broadcast to the components of the factor.
+        Lambda_new = jnp.broadcast_to(measure.Lambda, nu_new.shape + (self.D,))
         new_density_dict = {"Lambda": Lambda_new, "nu": nu_new, "ln_beta": ln_beta_new}
         if update_full:
             if measure.Sigma is None:
@@ -601,6 +602,9 @@ class LinearFactor(ConjugateFactor):
                 Sigma_new = measure.Sigma
                 ln_det_Sigma_new = measure.ln_det_Sigma
                 ln_det_Lambda_new = -ln_det_Sigma_new
+            Sigma_new = jnp.broadcast_to(Sigma_new, Lambda_new.shape)
+            ln_det_Sigma_new = jnp.broadcast_to(ln_det_Sigma_new, ln_beta_new.shape)
+            ln_det_Lambda_new = jnp.broadcast_to(ln_det_Lambda_new, ln_beta_new.shape)
             new_density_dict.update(
                 {
                     "Sigma": Sigma_new,
@@ -731,9 +735,10 @@ class ConstantFactor(ConjugateFactor):
         Returns:
             Returns the resulting dictionary to create GaussianMeasure.
         """
-        Lambda_new = measure.Lambda
-        nu_new = measure.nu
         ln_beta_new = measure.ln_beta + self.ln_beta
+        # A single-component measure is broadcast to the components of the factor.
+        nu_new = jnp.broadcast_to(measure.nu, ln_beta_new.shape + (self.D,))
+        Lambda_new = jnp.broadcast_to(measure.Lambda, nu_new.shape + (self.D,))
         new_density_dict = {"Lambda": Lambda_new, "nu": nu_new, "ln_beta": ln_beta_new}
         if update_full:
             if measure.Sigma is None:
@@ -743,6 +748,9 @@ class ConstantFactor(ConjugateFactor):
                 Sigma_new = measure.Sigma
                 ln_det_Sigma_new = measure.ln_det_Sigma
                 ln_det_Lambda_new = -ln_det_Sigma_new
+            Sigma_new = jnp.broadcast_to(Sigma_new, Lambda_new.shape)
+            ln_det_Sigma_new = jnp.broadcast_to(ln_det_Sigma_new, ln_beta_new.shape)
+            ln_det_Lambda_new = jnp.broadcast_to(ln_det_Lambda_new, ln_beta_new.shape)
             new_density_dict.update(
                 {
                     "Sigma": Sigma_new,
